@@ -19,4 +19,4 @@ Separate Extraction
   Query.any_tree Query.not_partition Query.into_alternatives Query.escape
   Query.is_meta_character Query.is_contextual_meta_character Query.invariant_text_prefix
   Glob.build Glob.compile_ok
-  Walk.walk Walk.glob_layer Walk.not_layer Walk.table_layer Walk.join_path Base.SEP.
+  Walk.walk Walk.glob_walk Walk.split_components Walk.glob_layer Walk.not_layer Walk.table_layer Walk.join_path Base.SEP.
